@@ -47,7 +47,8 @@ PROPS = {
                   "Option/Bound rows use the R3 model of Decoder::skip (C06 proves skip == R3)",
         "outside": "HashMap/HashSet (SipHash/RandomState not encodable), heap collections (alloc rows are thorough-tier), strings > 4 bytes, tuples > 4",
         "assumptions": ["Decoder::skip replaced by the R3 model in rows whose decoder skips a null/unit placeholder"],
-        "groups": [core({"quick": ["::q::c01"], "thorough": ["::c01"]})],
+        "groups": [core({"quick": ["::q::c01", "c01b::c01_q_", "c01t::c01_q_"], "thorough": ["::c01", "c01b::c01_q_", "c01t::c01_q_"]}),
+                   core(["types_alloc::"], features=("half", "std"), tiers=["thorough"], timeout={"thorough": 1200})],
     },
     "C02": {
         "title": "decoding untrusted bytes is total",
@@ -70,11 +71,12 @@ PROPS = {
     },
     "C04": {
         "title": "typed decoding agrees with the RFC 8949 data model",
-        "bounds": "single items: 9 symbolic head bytes (+ <= 4 payload) with symbolic length for array/map/tag/simple/bool/null/undefined/datatype/bytes/str "
+        "bounds": "single items: 9 symbolic head bytes (+ <= 4 payload) with symbolic length for the integer accessors (shared with C05), array/map/tag/simple/bool/null/undefined/datatype/bytes/str; "
+                  "indefinite strings (2 chunks, concrete lengths, symbolic content) through bytes_iter/str_iter; array_iter values; Range/Duration/RangeFrom from indefinite arrays and wide heads "
                   "(UTF-8 validated unstubbed against RFC 3629 for all payloads <= 4 bytes); prefix clause: for each C01 row, each listed concrete cut point k, all values symbolic",
         "outside": "indefinite-length string iterators (C02 covers their totality), nested typed containers deeper than the C01 rows, cut points not listed",
         "assumptions": ["on a complete item read through a NON-matching accessor only is_err() is required (minicbor may answer end-of-input there)"],
-        "groups": [core({"quick": ["c04::c04_", "::q::c04::"], "thorough": ["c04::c04_", "::c04::"]})],
+        "groups": [core({"quick": ["c04::c04_", "::q::c04::", "c05::c05_u", "c05::c05_i", "c05::c05_char"], "thorough": ["c04::c04_", "::c04::", "c05::c05_"]})],
     },
     "C06": {
         "title": "skip() consumes exactly one item",
